@@ -56,6 +56,10 @@ func runMergerFamily(ctx *Ctx, prop string) error {
 	for _, c := range mergerCorpus() {
 		run(c)
 	}
+	// the three properties of the family draw different streams from the same seed
+	for k := 0; k < int(prop[2]-'0'); k++ {
+		ctx.Rand.U64()
+	}
 	n := 800
 	if ctx.Thorough() {
 		n = 12000
